@@ -374,7 +374,7 @@ pub fn run(tier: Tier) -> i32 {
                     rep.acc.hist("violation");
                     rep.acc.violation(Violation {
                         signature: format!("real;{realloc};{chunks}"),
-                        summary: format!("C08: real 10 MiB minimum, allow_realloc {realloc}, max_nb_chunks {chunks}, 40 x 2.5 MiB entries: {msg}"),
+                        summary: format!("C08: shipped constants (requested budget below the minimum), allow_realloc {realloc}, max_nb_chunks {chunks}, 40 x 2.5 MiB entries: {msg}"),
                         case: json!({"kind": "sorter_bounds_real", "allow_realloc": realloc, "max_nb_chunks": chunks}),
                     });
                 }
@@ -383,7 +383,7 @@ pub fn run(tier: Tier) -> i32 {
     }
     let closed_all = rep.acc.counters.get("configurations_not_closed").copied().unwrap_or(0) == 0;
     rep.set("exhaustive", json!(closed_all));
-    rep.set("rule", json!("E1 closure: for every (budget T, allow_realloc, initial capacity, max_nb_chunks 1..=4) BFS over the real sorter's bookkeeping state (buffer_len, entries_len, bounds_count, chunks_len, dump_threshold — hook verif_state) under the insert alphabet of total entry sizes {0, 1, T/16, T/8, T/4} until no new state appears; each state is rebuilt by replaying its shortest insert history on a fresh Sorter over an instrumented ChunkCreator (create count, live chunks via Drop, high-water mark); every state is also finished (terminal transition). Invariants on every transition: unspilled bytes (= data inserted since the last spill) <= 2T (T without reallocation); the buffer is never emptied in a call that created no chunk; live chunks <= (effective, i.e. clamped to >= 1) max_nb_chunks + 2 at every instant; the sorter never holds more chunks than the creator's live ones. A second engine runs ALL insert sequences of length <= d (7 quick, 9 thorough) over the alphabet for the budgets <= 70 with no state deduplication. Plus hook-free runs at the real 10 MiB minimum (40 x 2.5 MiB). distinct_nontrivial = configurations with more than one reachable state"));
+    rep.set("rule", json!("E1 closure: for every (budget T, allow_realloc, initial capacity, max_nb_chunks 1..=4) BFS over the real sorter's bookkeeping state (buffer_len, entries_len, bounds_count, chunks_len, dump_threshold — hook verif_state) under the insert alphabet of total entry sizes {0, 1, T/16, T/8, T/4} until no new state appears; each state is rebuilt by replaying its shortest insert history on a fresh Sorter over an instrumented ChunkCreator (create count, live chunks via Drop, high-water mark); every state is also finished (terminal transition). Invariants on every transition: unspilled bytes (= data inserted since the last spill) <= 2T (T without reallocation), T being the configured threshold or, when larger, the threshold the sorter itself reports (its minimum; neither minimum nor default is assumed); the buffer is never emptied more often than the creator was asked for a chunk; live chunks <= (effective, i.e. clamped to >= 1) configured max_nb_chunks + 2 at every instant; the sorter never holds more chunks than the creator's live ones. A second engine runs ALL insert sequences of length <= d (7 quick, 9 thorough) over the alphabet for the budgets <= 70 with no state deduplication. Plus hook-free runs at the shipped minimum (requested 4096 B; 40 x 2.5 MiB entries). distinct_nontrivial = configurations with more than one reachable state"));
     rep.set("bound", json!({"budgets": ts, "configurations": cfgs.len(), "closure": "no depth bound"}));
     rep.assume("state deduplication is sound because the spill decision, fits, the doubling and the merge trigger read only the fingerprinted numbers and the configuration; the data bytes never influence them");
     rep.finish()
